@@ -14,6 +14,9 @@ type Unit struct {
 	Lemma    string   // lemma name
 	NoSym    bool     // families only
 	Scen     bool     // run all scenarios of Func
+	Alias    string   // all functions under contract of this package alias
+	LemmaLabel string // all lemmas carrying this label
+	G1       bool     // global-frame check (no writes to package-level state)
 }
 
 type PropPlan struct {
@@ -205,8 +208,35 @@ func (u *Universe) plans(st *SpecTables) map[string]*PropPlan {
 		Units: cat(decV3, decV2, encUnits, objFuncs("v3m", "BaseMetrics", "TemporalMetrics"), objFuncs("v2m", "BaseMetrics", "TemporalMetrics"), scoreUnitsV3, scoreUnitsV2), Assumptions: append(a1, "A5", "A9"),
 		Meta: []string{"Accessor contracts: BaseMetrics()/TemporalMetrics() return the embedded object itself (nil on nil). By the Decode postconditions of the higher-level decoder the embedded object's fields are the parses of the lower-level tokens; by the scenarios / C09 a lower-level decoder applied to the projected vector reaches the same fields and name flags; Score, Severity and Encode are functions of exactly that state with 'modifies nothing' (their contracts), so the results are equal. A query that writes into the embedded object (e.g. a cached score) fails the frame obligation."},
 	}
+	allPkgs := []Unit{{Alias: "v3m"}, {Alias: "v2m"}, {Alias: "nam"}, {Alias: "rep"}, {Alias: "ver"}, {G1: true}}
+	P["C15"] = &PropPlan{ID: "C15", Title: "queries never modify a metrics object; results are deterministic and history-free",
+		Units: allPkgs, Assumptions: []string{"A1", "A2", "A3", "A4", "A6", "A7", "A10", "G1", "map-order-free"},
+		Meta: []string{"Frame obligations: every query (GetError, Encode, String, Score, Severity, IsEmpty, accessors, all per-metric functions, all name functions, report constructors and exports) carries 'modifies nothing'; for each finished path and each heap field array the obligation 'every pre-allocated object keeps its value' is discharged (Decode/decodeOne: only the declared fields of the receiver's own objects). G1 (syntactic, every run): no function of the five packages assigns to, deletes from, takes the address of or lets escape a package-level variable, so there is no state outside the objects. Constructors return fresh objects with fresh name maps (allocation postconditions). Hence, by induction on the length of a call sequence with the frame as the inductive step, every query leaves every observable of every object unchanged and the result of a call depends only on the argument state: repeating or reordering queries, or earlier activity of the process, cannot change any result. Map iteration order cannot show: the code tables are injective (C20 round-trip lemmas) and range-over-table is modelled with unspecified order."},
+	}
+	P["C16"] = &PropPlan{ID: "C16", Title: "concurrent use is data-race free and equals sequential use (sufficient condition)",
+		Units: allPkgs, Assumptions: []string{"A1", "A2", "A3", "A4", "A6", "A7", "A10", "G1", "A8: the standard library, x/text and errs are themselves race-free for the calls made", "map-order-free"},
+		Meta: []string{"Sufficient condition, decided deductively: by the frames and G1 (see C15) the operations named in the property write only memory that the calling goroutine owns - objects it allocated itself (decoders' own objects, options, buffers, reports) or the receiver of its own Decode - and only READ shared decoded objects and package tables. By the Go memory model a data race needs a write to shared memory; without one every interleaving is equivalent to some sequential order, and by determinism (C15) each result equals the sequential one. The quantifier over schedules is discharged by this meta argument, not by the solver. Not decided: designs that share mutable state under correct synchronisation (they would fail the sufficient condition although the property may hold) and races inside dependencies (A8)."},
+	}
+	P["C17"] = &PropPlan{ID: "C17", Title: "every report field shows its own metric, in the requested language",
+		Units: []Unit{{Func: "rep.newOptions", NoSym: true, Scen: true}, {Func: "rep.NewBase"}, {Func: "rep.NewTemporal"}, {Func: "rep.NewEnvironmental"},
+			{Alias: "nam"}, {LemmaLabel: "C18"}, {Func: "v3m.Version.String"}, {Func: "v3m.Temporal.BaseMetrics"}, {Func: "v3m.Environmental.TemporalMetrics"}, {Lemma: "v3_grid_prints"}},
+		Assumptions: []string{"A5", "A7", "A10", "A-opt: an option list is represented by the language it selects (English without options); tied to the real closures of WithOptionsLanguage by exact execution of newOptions with 0, 1 and 2 options"},
+		Meta: []string{"One postcondition per exported field of the three report structs (23 + 12 + 28 fields plus the embedded reports' fields): title fields equal the summary of the title function of the metric the field is named after, value fields the summary of that metric's value-name function applied to that metric's field of the metrics object, both at the requested language; Version/Vector are the version label and the Encode() text of the same level (call-site ghost of <Level>.Encode#0); <Level>Score is FormatFloat of the value returned by <Level>.Score#0 and SeverityValue the name of the value returned by <Level>.Severity#0 (a constructor that consults another level's score/severity does not make that call and fails); embedded reports are built from the embedded metrics with the same options. Name functions are distinguishable because their summaries are exact (C18)."},
+	}
+	P["C19"] = &PropPlan{ID: "C19", Title: "template export renders faithfully and fails cleanly (relative to text/template)",
+		Units: []Unit{{Func: "rep.getTempleteString"}, {Func: "rep.executeTemplate"},
+			{Func: "rep.BaseReport.ExportWith"}, {Func: "rep.BaseReport.ExportWithString"}, {Func: "rep.TemporalReport.ExportWith"}, {Func: "rep.TemporalReport.ExportWithString"},
+			{Func: "rep.EnvironmentalReport.ExportWith"}, {Func: "rep.EnvironmentalReport.ExportWithString"}},
+		Assumptions: []string{"A2", "A4", "A6: text/template parse/execute are deterministic functions of (text, data) that write only to the given buffer and return errors instead of panicking; io.Copy returns the reader's full content or an error; library errors match none of the cvsserr sentinels", "A10"},
+		Meta: []string{"The wrappers are proved faithful GIVEN A6: on success the returned reader is non-nil and its content is exactly tt_exec_out(template text, report) with a nil error; a template that does not parse or execute, a nil or failing reader yield a nil reader and an error matching exactly ErrInvalidTemplate (the partially filled buffer is never returned); a nil report yields ErrNullPointer; ExportWith(r) equals ExportWithString(content of r). Nothing is proved about text/template itself."},
+	}
+	P["C18"] = &PropPlan{ID: "C18", Title: "localised names are total, unambiguous and fall back to English",
+		Units: []Unit{{Alias: "nam"}, {LemmaLabel: "C18"}, {Func: "v3m.Severity.String"}},
+		Assumptions: []string{"A7", "A10", "map-order-free"},
+		Meta: []string{"Each of the 52 name functions is executed symbolically (symbolic enumeration integer, symbolic language tag) against: non-empty result for every input, Unknown / 未定義 for every out-of-range value. Its summary fn_nam_<F> (the result as a term of the parameters, from the same symbolic execution) carries the lemmas: any tag other than the Japanese tag yields exactly the English name (hence every tag whose language is neither English nor Japanese), pairwise distinct names of defined values per language (ground lemma families over value pairs), Modified value name = base value name in both languages."},
+	}
 	P["C20"] = &PropPlan{ID: "C20", Title: "value codes, enumeration values and weights form the specification's tables",
-		Units: cat(v3(), v2(), []Unit{{Func: "v3m.Version.String"}, {Func: "v3m.get"}}, rtLemmas("v3", st.V3), rtLemmas("v2", st.V2)),
+		Units: cat(v3(), v2(), []Unit{{Func: "v3m.Version.String"}, {Func: "v3m.get"}, {Func: "ver.Num.String"}, {Func: "ver.Get"}}, rtLemmas("v3", st.V3), rtLemmas("v2", st.V2)),
 		Assumptions: []string{"A10", "map-order-free"},
 	}
 	return P
